@@ -16,12 +16,20 @@ Trusted reading of each recognised form (everything else is LOST):
   NonZeroUN::new_unchecked(e)   e                           + side condition  nonzero_arg N e   (e <> 0 /\ e <= uN::MAX)
   Self { key: nz } / T { key: nz }   the raw value of nz
   Some(k) / None                Some raw / None
+  the unsafe-free forms (Option-valued, each with its exact machine meaning; GenPrelude.v):
+  uN::try_from(e).ok()          try_from_int N e       (None iff e > uN::MAX; no truncation)
+  a.checked_add(b)   (type uN)  checked_add N a b      (None iff a + b > uN::MAX; no side condition)
+  NonZeroUN::new(e)             nz_new e               (None iff e = 0; e must have type uN)
+  O? (as a receiver) / O.and_then(NonZeroUN::new) / O.and_then(|x| ..)      obind
+  let x = O?; REST              match O with Some x => REST | None => None end      (in a function returning Option)
+  O.map(|key| Self { key })  for an Option<NonZeroUN> O      O   (the raw value)
+  NonZeroUN::MIN                1
 """
 from rsparse import Lost
 
 INT_BITS = {"u8": 8, "u16": 16, "u32": 32, "u64": 64, "usize": 64}
 NONZERO = {"NonZeroU8": "u8", "NonZeroU16": "u16", "NonZeroU32": "u32", "NonZeroU64": "u64", "NonZeroUsize": "usize"}
-RESERVED = {"cast", "umax", "in_range", "no_underflow", "nonzero_arg", "sat_sub", "usize_bits", "key_types", "if", "then",
+RESERVED = {"try_from_int", "checked_add", "nz_new", "obind", "v_", "cast", "umax", "in_range", "no_underflow", "nonzero_arg", "sat_sub", "usize_bits", "key_types", "if", "then",
             "else", "let", "in", "fun", "forall", "exists", "match", "with", "end", "Some", "None", "N", "Prop", "Type",
             "Set", "as", "at", "fix", "cofix", "return", "where", "using", "mod", "true", "false", "raw"}
 
@@ -154,11 +162,35 @@ class KeyLowering:
         if k == "paren":
             return self.lower(e[2], env, expect)
         if k == "block":
-            env = dict(env)
+            env = dict(env); wraps = []
             for s in e[2]:
                 if s[0] != "let" or s[2][0] != "pbind":
-                    self.lost(s[1], "statement form outside the subset (only `let x = <pure expr>;`)")
+                    self.lost(s[1], "statement form outside the subset (only `let x = <pure expr>;` and `let x = <option>?;`)")
                 x = s[2][2]
+                cx = "l_" + x                              # the Coq binder of a `?`-bound local
+                init = s[4]
+                while init[0] == "paren": init = init[2]
+                casts = []
+                while init[0] == "cast" and init[3] in INT_BITS:          # let x = O? as uN;
+                    casts.append(init[3]); init = init[2]
+                    while init[0] == "paren": init = init[2]
+                if casts and init[0] != "try":
+                    init = s[4]; casts = []
+                if init[0] == "try" and casts:
+                    o = self.lower_opt(init[2], env)
+                    if o[0] != "oint": self.lost(s[1], "cast of a non-integer")
+                    wraps.append((o[2], cx, list(o[3])))
+                    val = cx
+                    for t in reversed(casts): val = "cast %s (%s)" % (bits_coq(t), val)
+                    if s[3] is not None and s[3] != casts[0]: self.lost(s[1], "let type annotation does not match")
+                    env[x] = ("int", casts[0], val)
+                    continue
+                if init[0] == "try":                      # let x = O?;
+                    o = self.lower_opt(init[2], env)
+                    if s[3] is not None and s[3] != o[1]: self.lost(s[1], "let type annotation does not match")
+                    wraps.append((o[2], cx, list(o[3])))
+                    env[x] = ("int" if o[0] == "oint" else "nzvar", o[1], cx)
+                    continue
                 if s[3] is not None and s[3] not in INT_BITS: self.lost(s[1], "let type annotation `%s`" % s[3])
                 v = self.lower(s[4], env, s[3])
                 if v[0] != "int": self.lost(s[1], "`let` of a non-integer value")
@@ -166,7 +198,15 @@ class KeyLowering:
                 if v[3]: self.lost(s[1], "`let` of an expression with side conditions is outside the subset")
                 env[x] = ("int", v[1], v[2])
             if e[3] is None: self.lost(ln, "block without a value")
-            return self.lower(e[3], env, expect)
+            r = self.lower(e[3], env, expect)
+            if not wraps: return r
+            if r[0] != "opt": self.lost(ln, "`?` in a function that does not return Option<Self>")
+            val, ok = r[1], conj(r[2])
+            for o, x, ooks in reversed(wraps):
+                val = "match %s with Some %s => %s | None => None end" % (o, x, val)
+                inner = [] if ok == "True" else ["match %s with Some %s => %s | None => True end" % (o, x, ok)]
+                ok = conj(ooks + inner)
+            return ("opt", val, [] if ok == "True" else [ok])
         if k == "lit":
             ty = e[3] or expect
             if ty not in INT_BITS: self.lost(ln, "cannot type integer literal %d" % e[2])
@@ -179,9 +219,12 @@ class KeyLowering:
                 if n == "None": return ("opt", "None", [])
                 if n in ("true", "false"): return ("bool", n, [])
                 if n in env and env[n][0] == "int": return ("int", env[n][1], env[n][2], [])
+                if n in env and env[n][0] == "nzvar": return ("nz", env[n][1], env[n][2], [])
                 self.lost(ln, "unknown name `%s`" % n)
             if len(names) == 2 and names[0] in INT_BITS and names[1] == "MAX":
                 return ("int", names[0], "umax %s" % bits_coq(names[0]), [])
+            if len(names) == 2 and names[0] in NONZERO and names[1] == "MIN":
+                return ("nz", NONZERO[names[0]], "1", [])
             self.lost(ln, "unknown path `%s`" % "::".join(names))
         if k == "cast":
             if e[3] not in INT_BITS: self.lost(ln, "cast to `%s`" % e[3])
@@ -192,6 +235,14 @@ class KeyLowering:
             if e[2] == ("path", e[2][1], ["self"]) and e[3] == self.cur["field"] and "self" in env:
                 return ("nz", self.cur["ity"], "raw", [])
             self.lost(ln, "field access `.%s`" % e[3])
+        if k == "mcall" and e[3] == "map" and len(e[4]) == 1 and e[4][0][0] == "closure" and len(e[4][0][2]) == 1 \
+                and isinstance(e[4][0][2][0], str):
+            o = self.lower_opt(e[2], env)
+            if o[0] != "onz": self.lost(ln, "`.map(..)` on something that is not an Option<NonZero>")
+            p = e[4][0][2][0]
+            b = self.lower(e[4][0][3], dict(env, **{p: ("nzvar", o[1], "l_" + p)}), None)
+            if b[0] != "self" or b[1] != "l_" + p or b[2]: self.lost(ln, "`.map(..)` closure is not `|key| Self { key }`")
+            return ("opt", o[2], o[3])
         if k == "mcall":
             if e[3] == "get" and not e[4]:
                 r = self.lower(e[2], env, None)
@@ -307,3 +358,57 @@ def emit_keys(res, fname, relname):
     w("Create HintDb keysgen discriminated.")
     w("#[global] Hint Unfold usize_bits %s : keysgen." % " ".join(names))
     return "\n".join(L) + "\n"
+
+
+def _lower_opt(self, e, env):
+    """Option-valued expressions: ('oint', ty, coq, oks) | ('onz', ty, coq, oks)"""
+    while e[0] == "paren": e = e[2]
+    k, ln = e[0], e[1]
+    if k == "mcall" and e[3] == "ok" and not e[4]:
+        c = e[2]
+        while c[0] == "paren": c = c[2]
+        if c[0] == "call" and c[2][0] == "path" and len(c[3]) == 1:
+            n = path_names(c[2])
+            if len(n) == 2 and n[0] in INT_BITS and n[1] == "try_from":
+                v = self.lower(c[3][0], env, None)
+                if v[0] != "int": self.lost(ln, "try_from of a non-integer")
+                return ("oint", n[0], "try_from_int %s (%s)" % (bits_coq(n[0]), v[2]), v[3])
+        self.lost(ln, "`.ok()` on something that is not uN::try_from(e)")
+    if k == "mcall" and e[3] == "checked_add" and len(e[4]) == 1:
+        r = e[2]
+        while r[0] == "paren": r = r[2]
+        if r[0] == "try":
+            o = _lower_opt(self, r[2], env)
+            if o[0] != "oint": self.lost(ln, "checked_add on a non-integer")
+            b = self.lower(e[4][0], env, o[1])
+            if b[0] != "int" or b[1] != o[1] or b[3]: self.lost(ln, "checked_add argument is not a pure %s" % o[1])
+            return ("oint", o[1], "obind (%s) (fun v_ => checked_add %s v_ (%s))" % (o[2], bits_coq(o[1]), b[2]), o[3])
+        a = self.lower(r, env, None)
+        if a[0] != "int": self.lost(ln, "checked_add on a non-integer")
+        b = self.lower(e[4][0], env, a[1])
+        if b[0] != "int" or b[1] != a[1] or b[3]: self.lost(ln, "checked_add argument is not a pure %s" % a[1])
+        return ("oint", a[1], "checked_add %s (%s) (%s)" % (bits_coq(a[1]), a[2], b[2]), a[3])
+    if k == "mcall" and e[3] == "and_then" and len(e[4]) == 1:
+        o = _lower_opt(self, e[2], env)
+        if o[0] != "oint": self.lost(ln, "and_then on something that is not an Option of an integer")
+        f = e[4][0]
+        while f[0] == "paren": f = f[2]
+        nzname = None
+        if f[0] == "path" and len(path_names(f)) == 2 and path_names(f)[1] == "new": nzname = path_names(f)[0]
+        if f[0] == "closure" and len(f[2]) == 1 and isinstance(f[2][0], str):
+            c = f[3]
+            if c[0] == "call" and c[2][0] == "path" and len(path_names(c[2])) == 2 and path_names(c[2])[1] == "new" and len(c[3]) == 1 \
+                    and c[3][0] == ("path", c[3][0][1], [f[2][0]]):
+                nzname = path_names(c[2])[0]
+        if nzname not in NONZERO or NONZERO[nzname] != o[1]: self.lost(ln, "and_then argument is not NonZero%s::new" % o[1].upper())
+        return ("onz", o[1], "obind (%s) nz_new" % o[2], o[3])
+    if k == "call" and e[2][0] == "path" and len(e[3]) == 1:
+        n = path_names(e[2])
+        if len(n) == 2 and n[0] in NONZERO and n[1] == "new":
+            v = self.lower(e[3][0], env, NONZERO[n[0]])
+            if v[0] != "int" or v[1] != NONZERO[n[0]]: self.lost(ln, "%s::new of a non-%s value" % (n[0], NONZERO[n[0]]))
+            return ("onz", v[1], "nz_new (%s)" % v[2], v[3])
+    self.lost(ln, "Option-valued expression form `%s` is outside the subset" % k)
+
+
+KeyLowering.lower_opt = _lower_opt
